@@ -129,6 +129,14 @@ type frame struct {
 	free   []Value
 	skipG  map[*ssa.BasicBlock]*Term // map-range: visit condition for the pending iteration of the header block
 	bad    *Term                     // panic conditions raised by the current instruction
+	wpg    *Term                     // full guard for panic obligations inside writePath when the value guard was relaxed
+}
+
+func (fr *frame) wg(g *Term) *Term {
+	if fr.wpg != nil {
+		return And(fr.wpg, g)
+	}
+	return g
 }
 
 func (e *Engine) checkBudget() {
@@ -495,6 +503,7 @@ func (fr *frame) execBlock(b *ssa.BasicBlock) {
 	}
 	for _, ins := range b.Instrs[len(phis):] {
 		fr.bad = nil
+		curGuard = g
 		gBefore := g
 		g = fr.execInstr(b, ins, g)
 		if fr.e.shadowLog != nil {
@@ -657,8 +666,44 @@ func (fr *frame) store(p PtrV, v Value, g *Term, pos token.Pos) {
 			fr.panicAt(ag, "nil pointer dereference", pos)
 			continue
 		}
-		al.obj.val = fr.writePath(al.obj.val, al.path, v, ag, pos)
+		fr.wpg = ag
+		al.obj.val = fr.writePath(al.obj.val, al.path, v, relaxGuard(al.obj, ag), pos)
+		fr.wpg = nil
 	}
+}
+
+// relaxGuard: a write under guard g into an object that only exists when its allocation guard holds needs no
+// guard if the allocation guard implies g (syntactically evident cases only).
+func relaxGuard(o *Object, g *Term) *Term {
+	if o == nil || o.allocG == nil || g == True {
+		return g
+	}
+	if impliesSyn(o.allocG, g) {
+		return True
+	}
+	return g
+}
+
+func impliesSyn(a, g *Term) bool {
+	if a == g || g == True {
+		return true
+	}
+	conj := func(t *Term) []*Term {
+		if t.op == "and" {
+			return t.args
+		}
+		return []*Term{t}
+	}
+	as := map[int]bool{}
+	for _, c := range conj(a) {
+		as[c.id] = true
+	}
+	for _, c := range conj(g) {
+		if !as[c.id] {
+			return false
+		}
+	}
+	return true
 }
 
 func (fr *frame) writePath(cur Value, path []PathElem, v Value, g *Term, pos token.Pos) Value {
@@ -682,13 +727,13 @@ func (fr *frame) writePath(cur Value, path []PathElem, v Value, g *Term, pos tok
 	n := ArrayV{e: append([]Value(nil), arr.e...)}
 	if pe.idx.konst {
 		if pe.idx.val >= uint64(len(arr.e)) {
-			fr.panicAt(g, "index out of range", pos)
+			fr.panicAt(fr.wg(g), "index out of range", pos)
 			return cur
 		}
 		n.e[pe.idx.val] = fr.writePath(arr.e[pe.idx.val], path[1:], v, g, pos)
 		return n
 	}
-	fr.panicAt(And(g, Not(Cmp("bvult", pe.idx, BV(IntW, uint64(len(arr.e)))))), "index out of range", pos)
+	fr.panicAt(And(fr.wg(g), Not(Cmp("bvult", pe.idx, BV(IntW, uint64(len(arr.e)))))), "index out of range", pos)
 	for k := range arr.e {
 		c := Eq(pe.idx, BV(IntW, uint64(k)))
 		if c == False {
@@ -764,7 +809,9 @@ func (fr *frame) sliceStore(s SliceV, i *Term, v Value, g *Term, pos token.Pos) 
 		if al.obj == nil || !feasible(ag) {
 			continue
 		}
-		al.obj.val = fr.writePath(al.obj.val, []PathElem{{idx: BinBV("bvadd", al.off, i)}}, v, ag, pos)
+		fr.wpg = ag
+		al.obj.val = fr.writePath(al.obj.val, []PathElem{{idx: BinBV("bvadd", al.off, i)}}, v, relaxGuard(al.obj, ag), pos)
+		fr.wpg = nil
 	}
 }
 
@@ -850,6 +897,9 @@ func strSub(s StringV, lo, hi *Term) StringV {
 func strConcat(a, b StringV) StringV {
 	if a.n.konst {
 		k := int(a.n.val)
+		if k < 0 || k > len(a.b) {
+			k = len(a.b) // garbage length on an infeasible path
+		}
 		r := StringV{n: BinBV("bvadd", a.n, b.n)}
 		r.b = append(append([]*Term(nil), a.b[:k]...), b.b...)
 		return r
@@ -858,7 +908,7 @@ func strConcat(a, b StringV) StringV {
 		var acc Value
 		for _, c := range ctreeCases(a.n) {
 			k := int(c.v)
-			if k > len(a.b) {
+			if k < 0 || k > len(a.b) {
 				continue
 			}
 			v := StringV{n: BV(IntW, 0)}
@@ -868,6 +918,9 @@ func strConcat(a, b StringV) StringV {
 			} else {
 				acc = iteVal(c.g, v, acc)
 			}
+		}
+		if acc == nil {
+			acc = StringV{n: BV(IntW, 0)}
 		}
 		r := acc.(StringV)
 		r.n = BinBV("bvadd", a.n, b.n)
